@@ -174,6 +174,15 @@ CHECKS = {
               '8/10 bit, film grain, portrait) are decoded with 1, 2, 3, 4, 8 threads and under two perturbation seeds: pictures must equal the single-thread pictures, the decoder must return and tear down; a two-tile stream is decoded with 1 and 4 threads under ASan+UBSan.'),
         note=('Partial: the model covers the reconstruction stage of one tile and is a transcription (tied to the code by the runs only); loop filter, CDEF, restoration and motion-field projection jobs, and data races on picture memory, are exhibited only by the runs. '
               'Known findings D25 (loop restoration rows differ with >= 2 threads) and D26 (multi-tile streams, >= 4 threads: schedule-dependent wrong blocks); the teardown double free is fixed in /repo. TSan is not used (it cannot follow the spin waits on plain volatile flags without drowning in reports).')),
+    'C10': dict(
+        category='other', design_ref='DESIGN.md §6 C10',
+        technique='Sanitizer campaign on structure-aware mutations located with a Coq-verified OBU walk (theorem: in-bounds, always progresses) + valid streams and whole-stream splices that must decode cleanly',
+        text=('c10_obu_walk_in_bounds: on any byte string the OBU walk of OBU.v either fails or splits off one OBU consisting of input bytes only, consuming at least 2 and at most all of them (no loop, no look-ahead). The check uses that walk to place mutations: '
+              'truncation at OBU boundaries, bit flips in headers and anywhere, overwrites, size-field and type edits, drop / duplicate / reorder, partial splices, random strings, the annex-B flag; plus the valid streams themselves (10 geometries / tools) and splices '
+              'of two whole valid streams (a new sequence header with another geometry or bit depth). Every case runs in a fresh single-threaded decoder under ASan+UBSan with a watchdog: each call must return, no report, teardown must succeed. '
+              'Failures on conforming input are always violations; failures on malformed input are matched against the known sites.'),
+        note=('Partial: memory safety of the real decoder is decided by the runs, not by theorems. The campaign uses a fixed internal seed so that the failure signatures of the unchanged tree are stable. Known findings: D6 (bit readers read up to 8 bytes past the caller\'s buffer, on valid streams), '
+              'D14 (UBSan index out of bounds in EbDecParseBlock.c on valid streams), D28 (no validation of malformed input: 18 crash sites). Fixed in /repo: endless loop on any parse error, bit-depth change without re-initialisation, portrait-size overflow.')),
 }
 
 NOT_BUILT_REASON = 'check not built yet in this development (work in progress); no claim is made'
